@@ -264,6 +264,40 @@ theorem ratio_columns (t : String × String × String) (ht : t ∈ ratioCols) :
           rw [div_mul_div_comm]
           norm_num
 
+/-- the syntactic check for the compressed columns that are plain unit-box lengths: `c = raw[i16] / 32000 × BoxSize` -/
+def scaledOK (tbl : List Loader) (t : String × String) : Bool :=
+  match lookup tbl t.1 with
+  | some lc =>
+    match mono lc.expr with
+    | some (n, d) => n.isPerm [.raw t.2, .box] && d.isPerm [.const (int16Scale : Nat) 1]
+    | none => false
+  | none => false
+
+/-- **sigman_columns.**  `sigman_*` is `int16 / 32000 × BoxSize` (× 1 with conversion off). -/
+theorem sigman_columns (t : String × String) (ht : t ∈ scaledLengthCols) :
+    ∃ lc, lookup Loaders.table t.1 = some lc ∧
+      ∀ (P : Prim α) (box vel : α) (r h : String → Nat → α) (k : Nat),
+        eval P box vel r h k lc.expr = r t.2 k / 32000 * box := by
+  have hall : scaledLengthCols.all (scaledOK Loaders.table) = true := by decide +kernel
+  have hok := List.all_eq_true.mp hall t ht
+  unfold scaledOK at hok
+  cases hlc : lookup Loaders.table t.1 with
+  | none => simp [hlc] at hok
+  | some lc =>
+    refine ⟨lc, rfl, ?_⟩
+    intro P box vel r h k
+    simp only [hlc] at hok
+    cases hmc : mono lc.expr with
+    | none => simp [hmc] at hok
+    | some pc =>
+      obtain ⟨n, d⟩ := pc
+      simp only [hmc, Bool.and_eq_true, List.isPerm_iff] at hok
+      obtain ⟨hn, hdn⟩ := hok
+      rw [mono_sound P box vel r h k _ _ _ hmc, (hn.map _).prod_eq, (hdn.map _).prod_eq]
+      simp only [List.map_cons, List.map_nil, List.prod_cons, List.prod_nil, eval, int16Scale]
+      rw [mul_one, mul_one, mul_div_right_comm]
+      norm_num
+
 /-- non-vacuity: 30 ratio columns, e.g. `sigmavMaj_L2com` is relative to `sigmav3d_L2com` through the
 `sigmavMax_to_sigmav3d_L2com_i16` raw column -/
 example : ratioCols.length = 30 ∧
